@@ -237,7 +237,7 @@ func (e *envT) oracle(w *worker, pre *wstate, o opDef, fault, where string, so *
 		present, _ := pre.serverHas(e.fileMode, ri, oid)
 		return !present
 	}
-	checkOnServer := func(needs []need, what string, staleClass func(n need) bool) {
+	checkOnServer := func(needs []need, what string, staleClass func(n need) string) {
 		for _, n := range needs {
 			so.evals++
 			present, right := post.serverHas(e.fileMode, ri, n.Oid)
@@ -246,17 +246,19 @@ func (e *envT) oracle(w *worker, pre *wstate, o opDef, fault, where string, so *
 				continue
 			}
 			so.counters["P1.objects_checked"]++
-			cl := class
-			if (!present || !right) && staleClass != nil && fault == "" && staleClass(n) {
-				cl = "stale-tracking-ref"
+			cl := opk + ":" + class
+			if (!present || !right) && staleClass != nil && fault == "" {
+				if sc := staleClass(n); sc != "" {
+					cl = sc // one defect class whatever the form of the push
+				}
 			}
 			if !present {
-				so.viol(fmt.Sprintf("C03:object-not-on-server:%s:%s", opk, cl),
+				so.viol(fmt.Sprintf("C03:object-not-on-server:%s", cl),
 					fmt.Sprintf("%s: `%s`%s exited %d; %s, but object %s (%s, referenced by %s in commit %.7s) is not on the LFS server of %s",
 						where, o.Name, faultTxt, res.Code, what, labelOf(n.Oid), n.Oid[:12], n.Path, n.Commit, rname),
 					detail(map[string]interface{}{"oid": n.Oid, "path": n.Path, "commit": n.Commit}))
 			} else if !right {
-				so.viol(fmt.Sprintf("C03:wrong-bytes-on-server:%s:%s", opk, cl),
+				so.viol(fmt.Sprintf("C03:wrong-bytes-on-server:%s", cl),
 					fmt.Sprintf("%s: `%s`%s exited %d; %s, but the LFS server of %s stores bytes under %s (%s) that do not hash to it",
 						where, o.Name, faultTxt, res.Code, what, rname, labelOf(n.Oid), n.Oid[:12]),
 					detail(map[string]interface{}{"oid": n.Oid, "path": n.Path, "commit": n.Commit}))
@@ -279,10 +281,21 @@ func (e *envT) oracle(w *worker, pre *wstate, o opDef, fault, where string, so *
 		if len(newCommits) > 0 {
 			so.counters["P1.pushes_with_new_commits_on_remote"]++
 		}
-		tr := trackingShas(pre, rname)
-		checkOnServer(needs, fmt.Sprintf("%d commit(s) became reachable on %s", len(newCommits), rname), func(n need) bool {
-			// the holding commit was already reachable from a (stale) remote-tracking ref of this remote
-			return len(tr) > 0 && len(w.revList(loc, "", []string{n.Commit}, tr)) == 0
+		checkOnServer(needs, fmt.Sprintf("%d commit(s) became reachable on %s", len(newCommits), rname), func(n need) string {
+			// the holding commit was already reachable from a (stale) remote-tracking ref of this remote: was that branch
+			// deleted on the remote in the meantime, or does it still exist there (moved)?
+			cl := ""
+			for _, k := range sortedKeys(pre.LRefs) {
+				pfx := "refs/remotes/" + rname + "/"
+				if !strings.HasPrefix(k, pfx) || !e.isAncestor(w, loc, n.Commit, pre.LRefs[k]) {
+					continue
+				}
+				if _, still := preRefs["refs/heads/"+k[len(pfx):]]; still {
+					return "stale-tracking-ref-of-branch-moved-on-remote"
+				}
+				cl = "stale-tracking-ref-of-branch-deleted-on-remote"
+			}
+			return cl
 		})
 
 		// P2: an object needed by the pushed range that is nowhere => the push fails and no ref is updated
@@ -752,7 +765,8 @@ func newEnv(c *vx.Check) *envT {
 	if bin == "" {
 		panic(vx.ToolError{Msg: "VERIF_GITLFS not set (prop.json needs gitlfs)"})
 	}
-	e := &envT{scratch: filepath.Join(scratch, "c03"), thorough: c.Thorough(), blobSha: map[string]string{}, shaForm: map[string]string{}}
+	e := &envT{scratch: filepath.Join(scratch, "c03"), thorough: c.Thorough(), blobSha: map[string]string{}, shaForm: map[string]string{},
+		initSc: map[bool]*scenario{}, initStats: map[bool]*vx.Stats{}, initSeen: map[string]bool{}}
 	e.binDir = filepath.Join(e.scratch, "bin")
 	for _, d := range []string{e.binDir, filepath.Join(e.scratch, "tmp"), filepath.Join(e.scratch, "tmpl")} {
 		if err := os.MkdirAll(d, 0755); err != nil {
@@ -910,15 +924,16 @@ func (e *envT) checkRefs(w *worker, st *wstate) string {
 	return ""
 }
 
-// mkInits builds the initial states by running operation sequences (named) from the base world.
+// mkInits builds the initial states by running operation sequences (named) from the base world.  The steps are
+// ordinary transitions: they are evaluated by the oracle and recorded under the pseudo-scenario "inits".
 func (e *envT) mkInits(p *scenario, base snap, defs [][2]string) {
 	e.fileMode = p.FileMode
 	w := <-e.pool
 	defer func() { e.pool <- w }()
 	all := append(append(localOps(true, true), remoteOps(0, true, true)...), remoteOps(1, true, true)...)
-	byName := map[string]opDef{}
-	for _, o := range all {
-		byName[o.Name] = o
+	byName := map[string]int{}
+	for i, o := range all {
+		byName[o.Name] = i
 	}
 	// root commit c0 on main
 	restore(base, w.R)
@@ -929,17 +944,34 @@ func (e *envT) mkInits(p *scenario, base snap, defs [][2]string) {
 	s0 := capture(w.R)
 	empty := [2]map[string]string{{}, {}}
 	st0 := digest(s0, empty)
+	isc := e.initSc[p.FileMode]
+	if isc == nil {
+		name := "inits"
+		if p.FileMode {
+			name = "inits-file"
+		}
+		isc = &scenario{Name: name, FileMode: p.FileMode, Ops: all, Inits: []initState{{Desc: initUnpushed[0], Snap: s0, St: st0}}}
+		e.initSc[p.FileMode] = isc
+		e.initStats[p.FileMode] = vx.NewStats()
+	}
 	for _, d := range defs {
 		cur, st := s0, st0
+		var path []int
 		if d[1] != "" {
 			for _, name := range strings.Split(d[1], "; ") {
-				o, ok := byName[name]
+				oi, ok := byName[name]
 				if !ok {
 					panic(vx.ToolError{Msg: "mkInits: unknown operation " + name})
 				}
-				so := e.step(w, st, cur, o, "", "init "+d[0])
-				if !so.enabled || !so.res.OK() || len(so.viols) > 0 {
-					panic(vx.ToolError{Msg: fmt.Sprintf("mkInits: `%s` failed while building initial state %s: enabled=%v %s %v", name, d[0], so.enabled, so.res, so.viols)})
+				so := e.step(w, st, cur, all[oi], "", isc.where(0, path))
+				path = append(path, oi)
+				if !so.enabled || !so.res.OK() {
+					panic(vx.ToolError{Msg: fmt.Sprintf("mkInits: `%s` failed while building initial state %s: enabled=%v %s", name, d[0], so.enabled, so.res)})
+				}
+				if key := fmt.Sprintf("%016x|%d", st.Key, oi); !e.initSeen[key] {
+					e.initSeen[key] = true
+					r := e.toResult(isc, 0, path, 0, st, &so)
+					e.initStats[p.FileMode].Absorb(nil, &r, 0)
 				}
 				cur, st = so.snap, so.post
 			}
@@ -980,7 +1012,6 @@ func (e *envT) scenarios() []*scenario {
 		main.Depth, main.FaultDepth = 4, 3
 	}
 	e.mkInits(main, baseHTTP, [][2]string{initSynced, initUnpushed})
-	ps = append(ps, main)
 
 	graphs := &scenario{Name: "graphs", Depth: 3, FaultDepth: 1, Faults: faults}
 	graphs.Ops = append(localOps(true, e.thorough), remoteOps(0, true, e.thorough)...)
@@ -1018,6 +1049,7 @@ func (e *envT) scenarios() []*scenario {
 		e.eachWorker(func(w *worker) { w.setTransport(false) })
 		ps = append(ps, file)
 	}
+	ps = append(ps, main) // the largest scenario runs last: a deadline cuts it, not the others
 	return ps
 }
 
@@ -1068,17 +1100,13 @@ func TestVerifC03(t *testing.T) {
 			fmt.Printf("TOOL-ERROR property=C03 cannot load replay: %v\n", err)
 			os.Exit(2)
 		}
-		for _, p := range parts {
-			if p.Name == rf.Scenario {
+		for _, p := range append([]*scenario{e.initSc[false], e.initSc[true]}, parts...) {
+			if p != nil && p.Name == rf.Scenario {
 				if rf.Tier != c.Tier {
 					fmt.Printf("TOOL-ERROR property=C03 replay file was recorded with --tier %s; re-run with that tier\n", rf.Tier)
 					os.Exit(2)
 				}
-				if p.FileMode {
-					e.eachWorker(func(w *worker) { w.setTransport(true) })
-				}
-				run := e.replayRun(p)
-				exec := func(pr []vx.Point) vx.Result { return vx.SafeRun(run, pr) }
+				exec := e.execFor(p)
 				r := exec(rf.Prefix)
 				st := vx.NewStats()
 				st.Absorb(rf.Prefix, &r, 0)
@@ -1094,6 +1122,11 @@ func TestVerifC03(t *testing.T) {
 	only := os.Getenv("VERIF_ONLY")
 	var vparts []vx.Part
 	var infos []bfsInfo
+	for _, fm := range []bool{false, true} {
+		if isc := e.initSc[fm]; isc != nil {
+			vparts = append(vparts, vx.Part{Scenario: isc.Name, Stats: e.initStats[fm], Exec: e.execFor(isc)})
+		}
+	}
 	for _, p := range parts {
 		p := p
 		if only != "" && !strings.HasPrefix(p.Name, only) {
@@ -1109,15 +1142,7 @@ func TestVerifC03(t *testing.T) {
 		infos = append(infos, info)
 		fmt.Printf("scenario %-11s inits=%d ops=%d depth=%d states=%d edges=%d pushes=%d probes=%d levels=%d exhaustive=%v wall=%.1fs\n", p.Name, info.Initial, info.Ops, p.Depth,
 			info.States, info.Transitions, info.PushTransitions, info.FaultProbes, info.Levels, st.Exhaustive, info.WallS)
-		run := e.replayRun(p)
-		fm := p.FileMode
-		vparts = append(vparts, vx.Part{Scenario: p.Name, Stats: st, Exec: func(pr []vx.Point) vx.Result {
-			if fm {
-				e.eachWorker(func(w *worker) { w.setTransport(true) })
-				defer e.eachWorker(func(w *worker) { w.setTransport(false) })
-			}
-			return vx.SafeRun(run, pr)
-		}})
+		vparts = append(vparts, vx.Part{Scenario: p.Name, Stats: st, Exec: e.execFor(p)})
 	}
 	var ru syscall.Rusage
 	syscall.Getrusage(syscall.RUSAGE_CHILDREN, &ru)
@@ -1126,6 +1151,18 @@ func TestVerifC03(t *testing.T) {
 	syscall.Getrusage(syscall.RUSAGE_SELF, &rs)
 	fmt.Printf("cpu of child processes (git, git-lfs): %.1fs; harness itself: %.1fs\n", cpu, float64(rs.Utime.Sec+rs.Stime.Sec))
 	os.Exit(c.Finish(vparts, map[string]interface{}{"bfs": infos, "max_depth": maxDepth(infos), "child_process_cpu_s": cpu}))
+}
+
+// execFor: stateless re-execution of one case of scenario p (used to confirm violations and for --replay).
+func (e *envT) execFor(p *scenario) func(pr []vx.Point) vx.Result {
+	run := e.replayRun(p)
+	return func(pr []vx.Point) vx.Result {
+		if p.FileMode {
+			e.eachWorker(func(w *worker) { w.setTransport(true) })
+			defer e.eachWorker(func(w *worker) { w.setTransport(false) })
+		}
+		return vx.SafeRun(run, pr)
+	}
 }
 
 func maxDepth(infos []bfsInfo) int {
